@@ -1,6 +1,8 @@
 import Dcg.Proofs.Imports
 import Dcg.Proofs.Cover
 import Dcg.Proofs.Types
+import Dcg.Proofs.ClassTie
+import Dcg.Model.FieldText
 /-
 C02 — emitted modules execute: every name is bound before it is needed.
 Only property theorems live here; helper lemmas are in Dcg/Proofs/Imports.lean (and
@@ -140,19 +142,193 @@ theorem imports_cover_hint_full_false : ¬ ImportsCoverHint := by
 
 /-! ### The module-level claim
 
-`module_well_bound` (FULL, not proved): for every supported input and option vector, in every
-emitted module (a) each eager use — base class, decorator, subscripted generic base, alias
-right-hand side, default, `Field(...)` argument — is bound by an earlier statement; (b) each name
-of an annotation is bound by some statement of the module or is a builtin; (c) no class or member
-re-binds a name the module needs; (d) every model's forward references resolve.
+`Model.ClassScope` is C02 on the abstract syntax of an emitted module: imports, classes (header,
+members with annotation and value), aliases, footer. `WellBound cfg m` (Proofs/ClassScope) says:
+every eager use — base, decorator, generic base argument, alias right-hand side, default,
+`Field(...)` argument — is bound by an earlier statement (or earlier in the class body, or is a
+builtin); every deferred use (annotation under the future import, body of a lambda) is bound by
+some statement; no class or assignment re-binds an imported name; and no class-level binding hides
+a name that a value of that class (while the body runs) or an annotation of that class (when the
+evaluators of output kind `cfg.kind` resolve it in the class namespace) reads.  The harness parses
+every real module of the e2e campaign into this syntax and runs `problems` on it through the
+driver; it must agree with the Python analysis and with what importing the module really does
+(campaign `classscope.tie`). -/
 
-What this file proves of it: the import *set* mechanics (`counter_pos_present`,
-`counter_invariant`), that pruning only ever drops names that do not occur in the text
-(`prune_sound`), and that the per-type derivation covers what `type_hint` writes
-(`imports_cover_hint_partial`).  Not modelled, hence only tested end-to-end on every run
-(campaign `e2e`: import the module, resolve forward references, static scope analysis): the
-aggregation over models and fields (`Field`, `Annotated`, base-class and `DEFAULT_IMPORTS`), the
-ordering of definitions (C11), `__alias_shadowed_imports` / `__change_field_name`, the
-forward-reference footer.  Refuted on the pinned tree by the known findings C02-F1 … F4. -/
+open Dcg.Model.ClassScope Dcg.Model.ClassRender Dcg.Proofs.ClassScope Dcg.Proofs.ClassRender in
+/-- FULL STRENGTH: the checker the driver runs on the real modules decides exactly the statement —
+`problems` finds nothing iff the module is well bound (every module, every output kind). -/
+theorem problems_decide_wellBound (cfg : Cfg) (m : Module) : problems cfg m = [] ↔ WellBound cfg m :=
+  problems_nil_iff cfg m
+
+open Dcg.Model.ClassScope Dcg.Proofs.ClassScope in
+/-- FULL STRENGTH, every expression, any evaluation context: an annotation or value that reads no
+name carrying a member's value evaluates to what the module means (or stops at a NameError for an
+unbound name, which the binding clauses exclude) — never to another type, never to an exception of
+a hidden value. This is why hypothesis (ii) below suffices. -/
+theorem hidden_free_is_harmless (hid bnd : Name → Bool) (e : Expr) (h : ∀ n ∈ e.names, hid n = false) :
+    outcome hid bnd e = .ok ∨ outcome hid bnd e = .nameError :=
+  outcome_of_clean hid bnd e h
+
+open Dcg.Model.ClassScope Dcg.Model.ClassRender Dcg.Proofs.ClassScope Dcg.Proofs.ClassRender in
+/-- FULL STATEMENT (kept visible; FALSE of the code, see `member_named_Optional_hides` and
+`default_uses_later_class_unbound`): every module the generator lays out is well bound for every
+output kind. -/
+def ModuleWellBound : Prop := ∀ (cfg : Cfg) (g : GModule), CoverOK cfg.builtins g → FooterOK g → WellBound cfg (render g)
+
+open Dcg.Model.ClassScope Dcg.Model.ClassRender Dcg.Proofs.ClassScope Dcg.Proofs.ClassRender in
+/-- PARTIAL: a module laid out as `Parser.parse` does — import block, classes in the order the
+sort left them, forward-reference footer — is well bound for EVERY output kind under four decidable
+side conditions: (i) `CoverOK`: imports, the module's classes and builtins cover every name of every
+rendered hint (`hint_typing_names_imported` gives the typing names); (ii) `MembersDisjoint`: no
+member that has a value is named like a name an annotation or a value of its class reads — FALSE
+of the generator, `member_named_Optional_hides`; (iii) `OrderOK`: decorators, bases, defaults and
+`Field(...)` arguments use imported names, builtins or classes written earlier
+(`bases_bound_by_sort` gives the bases; false for enum defaults and alias right-hand sides, known
+findings C02-F3/F4, `default_uses_later_class_unbound`); (iv) the footer names classes of the
+module and no class is named like an import. -/
+theorem module_well_bound_partial (cfg : Cfg) (g : GModule) (hc : CoverOK cfg.builtins g)
+    (hd : MembersDisjoint g) (ho : OrderOK cfg.builtins g) (hf : FooterOK g) (hr : NoClassRebinds g) :
+    WellBound cfg (render g) :=
+  wellBound_render cfg g hc hd ho hf hr
+
+open Dcg.Model.ClassScope Dcg.Model.ClassRender Dcg.Proofs.ClassScope Dcg.Proofs.ClassRender in
+/-- … and the side conditions are decidable: `sideOK` computes them. -/
+theorem module_well_bound_of_sideOK (cfg : Cfg) (g : GModule) (h : sideOK cfg.builtins g = true) :
+    WellBound cfg (render g) :=
+  wellBound_of_sideOK cfg g h
+
+namespace Witness
+open Dcg.Model.ClassScope Dcg.Model.ClassRender
+open Dcg.Sem.Typing (TExpr sOptional)
+
+def builtins : List Name := ["None".toList, "str".toList, "int".toList]
+def nModel : Name := "Model".toList
+def nOptional : Name := "Optional".toList
+def nList : Name := "List".toList
+def nBaseModel : Name := "BaseModel".toList
+
+/-- `Optional: Optional[str] = None` -/
+def mOptional : GMember := { name := nOptional, hint := .app sOptional [.atom "str".toList], value := some .lit }
+def cOptional : GClass :=
+  { name := nModel, decorators := [], bases := [nBaseModel],
+    members := [mOptional, { name := "x".toList, hint := .app sOptional [.atom "int".toList], value := some .lit }] }
+
+/-- `class Model(BaseModel): Optional: Optional[str] = None; x: Optional[int] = None` -/
+def gOptional : GModule :=
+  { imports := ["annotations".toList, nOptional, nBaseModel], classes := [cOptional], footer := [] }
+
+/-- the same with the member required: `Optional: str` binds nothing -/
+def gOptionalRequired : GModule :=
+  { imports := ["annotations".toList, nOptional, nBaseModel]
+    classes := [{ name := nModel, decorators := [], bases := [nBaseModel],
+                  members := [{ name := nOptional, hint := .atom "str".toList, value := none },
+                              { name := "x".toList, hint := .app sOptional [.atom "int".toList], value := some .lit }] }]
+    footer := [] }
+
+/-- two classes, a reference, a `Field(...)` call, a footer line -/
+def gPets : GModule :=
+  { imports := ["annotations".toList, nOptional, nList, nBaseModel, "Field".toList]
+    classes := [{ name := "Pet".toList, decorators := [], bases := [nBaseModel],
+                  members := [{ name := "name".toList, hint := .atom "str".toList, value := none },
+                              { name := "tag".toList, hint := .app sOptional [.atom "str".toList], value := some .lit }] },
+                { name := nModel, decorators := [], bases := [nBaseModel],
+                  members := [{ name := "pets".toList, hint := .app sOptional [.app nList [.atom "Pet".toList]], value := some .lit },
+                              { name := "x_y".toList, hint := .app sOptional [.atom "int".toList],
+                                value := some (.call (.name "Field".toList) [.lit, .lit]) }] }]
+    footer := [nModel] }
+
+/-- known finding C02-F4 (`--keep-model-order`): `class Doc: name: Optional[Name] = Name.x` before `class Name(Enum)` -/
+def gEnumDefault : GModule :=
+  { imports := ["annotations".toList, nOptional, "Enum".toList, "dataclass".toList]
+    classes := [{ name := "Doc".toList, decorators := ["dataclass".toList], bases := [],
+                  members := [{ name := "name".toList, hint := .app sOptional [.atom "Name".toList],
+                                value := some (.attr (.name "Name".toList)) }] },
+                { name := "Name".toList, decorators := [], bases := ["Enum".toList], members := [] }]
+    footer := [] }
+end Witness
+
+open Dcg.Model.ClassScope Dcg.Model.ClassRender Dcg.Proofs.ClassScope Dcg.Proofs.ClassRender Witness in
+/-- non-vacuity of `module_well_bound_partial`: the side conditions hold of a module with a class
+reference, a `Field(...)` call and a footer, and of the required-member variant of the witness below -/
+example : sideOK builtins gPets = true ∧ sideOK builtins gOptionalRequired = true := by decide
+
+open Dcg.Model.ClassScope Dcg.Model.ClassRender Dcg.Proofs.ClassScope Dcg.Proofs.ClassRender Witness in
+/-- REFUTATION of hypothesis (ii) and of `ModuleWellBound` (known findings C02-F6/F9): the module
+`class Model(BaseModel): Optional: Optional[str] = None; x: Optional[int] = None` satisfies (i),
+(iii), (iv) but the member `Optional` hides the typing construct for both annotations: for
+pydantic v2 and for dataclass consumers the evaluation subscripts the member's value
+(`exception`); pydantic v1 evaluates in the module's globals and is well bound; with the member
+required (`Optional: str`) nothing is bound and every kind is well bound. -/
+theorem member_named_Optional_hides :
+    coverOKb builtins gOptional = true ∧ orderOKb gOptional.imports builtins gOptional.classes [] = true ∧
+    ¬ MembersDisjoint gOptional ∧
+    problems ⟨.pydV2, builtins⟩ (render gOptional) =
+      [.hides nModel nOptional nOptional .creation .exception, .hides nModel "x".toList nOptional .creation .exception] ∧
+    ¬ WellBound ⟨.pydV2, builtins⟩ (render gOptional) ∧ ¬ WellBound ⟨.dataclass, builtins⟩ (render gOptional) ∧
+    WellBound ⟨.pydV1, builtins⟩ (render gOptional) ∧
+    (∀ k, WellBound ⟨k, builtins⟩ (render gOptionalRequired)) := by
+  refine ⟨by decide, by decide, ?_, by decide, ?_, ?_, ?_, ?_⟩
+  · intro h
+    have := h cOptional (by simp [gOptional]) mOptional (by simp [cOptional]) rfl mOptional (by simp [cOptional])
+    exact this.1 (by decide)
+  · rw [← problems_nil_iff]; decide
+  · rw [← problems_nil_iff]; decide
+  · rw [← problems_nil_iff]; decide
+  · intro k
+    exact wellBound_of_sideOK ⟨k, builtins⟩ gOptionalRequired (by show sideOK builtins gOptionalRequired = true; decide)
+
+theorem module_well_bound_full_false : ¬ ModuleWellBound := by
+  intro h
+  have := h ⟨.pydV2, Witness.builtins⟩ Witness.gOptional
+    (Dcg.Proofs.ClassRender.coverOK_of_b _ _ (by decide)) (by intro n hn; cases hn)
+  exact member_named_Optional_hides.2.2.2.2.1 this
+
+open Dcg.Model.ClassScope Dcg.Model.ClassRender Dcg.Proofs.ClassScope Dcg.Proofs.ClassRender Witness in
+/-- REFUTATION of hypothesis (iii) (known finding C02-F4): a default that is an enum member is
+evaluated when the class body runs; when the enum class is written later (`--keep-model-order`
+only repairs the order for base classes) the name is unbound: `order`, in every output kind. -/
+theorem default_uses_later_class_unbound :
+    orderOKb gEnumDefault.imports builtins gEnumDefault.classes [] = false ∧
+    ∀ k, problems ⟨k, builtins⟩ (render gEnumDefault) = [.order "Name".toList] := by
+  refine ⟨by decide, ?_⟩
+  intro k
+  cases k <;> decide
+
+open Dcg.Model.ClassRender Dcg.Proofs.ClassTie Dcg.Model.ClassScope in
+/-- Hypothesis (i), typing names: for a member whose hint is the structural rendering of a type tree
+(`hintE`), every typing / collections.abc name the annotation reads is among the imports
+`DataType.all_imports` yields — under the side conditions of `imports_cover_hint_partial`. -/
+theorem hint_typing_names_imported (o : Opts) (t : DT) (hc : coverOK o t = true) (hf : flagsAgree o t = true) :
+    ∀ n ∈ (ofT (hintE o t).1).names, n ∈ typingNames → n ∈ impNames (allImports o true t) :=
+  fun n hn ht => imports_cover_hint_partial o t hc hf n (names_ofT_subset _ n hn) ht
+
+open Dcg.Model.ClassRender Dcg.Model.Sort Dcg.Model.ClassScope in
+/-- Hypothesis (iii), base classes: when the classes are written in the order `sort_data_models`
+returns (C11 `sort_base_before_derived`), every base-class name is bound by an earlier class
+statement. -/
+theorem bases_bound_by_sort (rc : Nat) (ms : List Dcg.Model.Sort.Model) (out : Out)
+    (hd : Dcg.Props.C11.DistinctPaths ms) (hwf : ∀ m ∈ ms, Dcg.Proofs.Sort.WF m)
+    (h : sortDataModels rc ms = .ok out) (nm : Path → Name) (mk : Dcg.Model.Sort.Model → GClass)
+    (hname : ∀ m, (mk m).name = nm m.path) (hbases : ∀ m, (mk m).bases = m.bases.map nm) :
+    ∀ pre c post, out.sorted.map mk = pre ++ c :: post → ∀ b ∈ c.bases, b ∈ pre.map (·.name) :=
+  Dcg.Proofs.ClassTie.bases_precede_of_sort rc ms out hd hwf h nm mk hname hbases
+
+/-- FULL STRENGTH over the model's space (every combination of the five facts): the names the class
+template writes for a pydantic member besides its type hint — `Field` for `= Field(...)`, `Annotated`
+and `Field` for `Annotated[<hint>, Field(...)]` — are yielded by the member's own `.imports`: both
+are decided from the same text `str(self)`. (The seeded regression C02-a breaks exactly this
+coupling in the dataclass field class; campaign `field/model imports vs rendered text` tests it on
+the real classes of all five kinds.) -/
+theorem field_imports_cover (v : Dcg.Model.FieldText.V) :
+    ∀ n ∈ Dcg.Model.FieldText.memberUses v, n ∈ Dcg.Model.FieldText.imports v := by
+  obtain ⟨a, e, f, u, k⟩ := v
+  cases a <;> cases e <;> cases f <;> cases u <;> cases k <;> decide
+
+/-!
+What remains outside the theorems (tested end-to-end on every run): that the real import block
+contains what the field and model classes ask for (`Field`, `Annotated`, base classes,
+`DEFAULT_IMPORTS`: the aggregation over models), `__alias_shadowed_imports` /
+`__change_field_name` (what they do is observed through hypothesis (ii) on the real modules), and
+the libraries' own resolution. -/
 
 end Dcg.Props.C02
